@@ -4,8 +4,8 @@ from .. import sym as S
 from ..conccheck import ob_invariant, ob_conservation, run_conc
 from ..framework import Run, load_known
 
-PROGRAMS_QUICK = ['CM', 'MC', 'QM', 'MQ', 'AM', 'MA', 'CC', 'QC', 'CQ', 'AC', 'QQ', 'AQ']
-PROGRAMS_THOROUGH = PROGRAMS_QUICK + ['MM', 'AA', 'CA', 'QA']
+PROGRAMS_QUICK = ['CM', 'MC', 'QM', 'MQ', 'AM', 'MA', 'CC', 'QC', 'CQ', 'AC', 'QQ', 'AQ', 'PM', 'MP', 'BM', 'MB', 'XM', 'MX', 'XC', 'BQ']
+PROGRAMS_THOROUGH = PROGRAMS_QUICK + ['MM', 'AA', 'CA', 'QA', 'PC', 'CP', 'BC', 'CB', 'CX', 'XQ', 'QX', 'PA', 'BA', 'XA', 'XX', 'BB']
 
 
 def obls(P):
@@ -16,7 +16,7 @@ def obls(P):
 
 CONC_ASSUMPTIONS = [
     'sequentially consistent memory; every atomic / DashMap / SegQueue operation is one atomic step (linearizable containers)',
-    'schedules: every well-nested interleaving of two threads with one operation each (thread B runs completely between two consecutive shared-memory steps of thread A, or before/after A); crossing overlaps are outside the bound',
+    'operations: A add, M match, C cancel, Q quantity amend, P price update, B price+quantity update, X replace (new prices symbolic: both the move-away and the same-price case); schedules: every well-nested interleaving of two threads with one operation each (thread B runs completely between two consecutive shared-memory steps of thread A, or before/after A); crossing overlaps are outside the bound',
     'the level starts in an ARBITRARY state with <= N resting orders and <= K queued tickets satisfying the sequential invariants (so any earlier history is covered)',
     'match_order loop unrolled to the stated bound (deeper sweeps excluded)',
     'order price == level price; total supplied quantity fits in 64 bits; price*quantity does not overflow',
